@@ -268,7 +268,7 @@ pub fn op_props(op: &Value, pre_full: bool, exp_ret: &Value) -> String {
         }
         "from_iter" | "from_array" => p.extend(["C16", "C12"]),
         "fmt" | "s_fmt" => p.push("C19"),
-        "clone" => p.push("C15"),
+        "clone" | "clone_from" | "s_clone_from" => p.push("C15"),
         "serde" => p.push("C20"),
         "s_insert" | "s_replace" => {
             p.extend(["C07", "C12"]);
